@@ -192,6 +192,12 @@ def gen_case(rng, big):
             flags += "f"
         if rng.chance(1, 7):
             flags += "t"
+        # how the processor publishes through Committer<T>: plain / move-constructed / moved twice + move-assigned /
+        # move-assigned over a valid committer / explicit release / moved into another thread (deferred commit)
+        cm = rng.choice(["", "", "m", "M", "w", "e", "a", "m"])
+        if cm == "a" and "t" in flags:
+            cm = "m"
+        flags += cm
         deps = []
         ndeps = [0, 1, 1, 2, 2, 3][rng.below(6)] if v > 0 or rng.chance(1, 2) else 0
         for _ in range(ndeps):
@@ -233,7 +239,7 @@ def gen_late(rng):
     condition C of X's dependency on A) while A's own target T is being sealed by another worker"""
     presets = [(0, rng.choice([0, 1, "E"])), (1, rng.below(900))]
     chain = rng.below(3)
-    graph = [("", [(1, None, False, False)], [2])]
+    graph = [(rng.choice(["", "m", "a", "M"]), [(1, None, False, False)], [2])]
     last = 2
     nd = 3
     for _ in range(chain):
@@ -298,7 +304,7 @@ XDIR = ("x.dir", 921473905, 1, "P3x", 2,
         [], [[(0, 1, 7)]], [8, 7])
 XSIG = "run-races-external-release"
 
-MON = ["once", "deps", "flag", "input", "dataonce", "wait", "fin", "tgtready"]
+MON = ["once", "deps", "flag", "input", "dataonce", "wait", "fin", "tgtready", "sealed", "observed"]
 WHAT = {"once": "a vertex processor ran (or was activated) more than once in one run",
         "deps": "a processor ran before all of its dependencies were ready (condition sealed, target sealed if it holds)",
         "flag": "dependency.ready() seen by the processor differs from 'condition holds and target sealed'",
@@ -306,7 +312,45 @@ WHAT = {"once": "a vertex processor ran (or was activated) more than once in one
         "dataonce": "a data was published more than once or its final value differs from the published one",
         "wait": "closure.wait() returned while a started vertex was still running / queued",
         "fin": "closure not finished after get() returned",
-        "tgtready": "closure finished with success while a requested target was not ready"}
+        "tgtready": "closure finished with success while a requested target was not ready",
+        "sealed": "a data was already sealed (published) while its valid committer had not been released yet - "
+                  "published by something other than release()/destruction of the committer, then written afterwards",
+        "observed": "a processor ran before its dependency had its value: what it read differs from the data's final content"}
+
+
+def gen_committer_program(rng):
+    """random program over Committer<int64_t> objects on data d0, d1: N<d> M<c> A<dst>:<src> W<c>=<v> L<c> R<c> D<c> C<c>"""
+    ops = []
+    live = []          # indices of committers not destroyed
+    n = 0
+    for _ in range(3 + rng.below(10)):
+        k = rng.below(10)
+        if k < 2 or not live:
+            ops.append("N%d" % rng.below(2))
+            live.append(n)
+            n += 1
+        elif k < 5:
+            ops.append("M%d" % rng.choice(live))
+            live.append(n)
+            n += 1
+        elif k == 5 and len(live) >= 2:
+            a = rng.choice(live)
+            b = rng.choice([x for x in live if x != a])
+            ops.append("A%d:%d" % (a, b))
+        elif k < 8:
+            ops.append("W%d=%d" % (rng.choice(live), 1 + rng.below(90)))
+        elif k == 8:
+            ops.append(rng.choice(["R%d", "D%d", "L%d", "R%d"]) % rng.choice(live))
+            if ops[-1][0] == "D":
+                live.remove(int(ops[-1][1:]))
+        else:
+            if rng.chance(1, 4):
+                ops.append("C%d" % rng.choice(live))
+            else:
+                ops.append("W%d=%d" % (rng.choice(live), 1 + rng.below(90)))
+    for c in live:
+        ops.append("D%d" % c)
+    return ",".join(ops)
 
 
 def parse_cycle(s):
@@ -438,7 +482,15 @@ def main(argv):
             cid = "u11d.%d" % k
             ulines.append("%s %d %d U 1 -:1?0:2 - 0=1@%d|1=7@%d 2" % (cid, rng.below(1 << 31), [3, 0][k % 2], 2 + k % 5, 2 + (k // 5) % 5))
             umeta[cid] = ("u11", "1", "1")
-    chk.log("%d graph cases, %d unit cases, %d cases where run() races an external release" % (len(lines), len(ulines), len(xlines)))
+    klines = []
+    if not chk.replay:
+        for k in range(150 if not thorough else 1500):
+            klines.append("k%d 0 0 K 1 -:0,1:2 - - %s" % (k, gen_committer_program(rng)))
+    elif replay_unit and replay_unit.get("kline"):
+        klines.append(replay_unit["kline"])
+        ulines = []
+    ulines = ulines + klines
+    chk.log("%d graph cases, %d unit cases, %d committer programs, %d cases where run() races an external release" % (len(lines), len(ulines) - len(klines), len(klines), len(xlines)))
     impl_out = chk.run_cases(impl, lines + ulines, timeout=900) if impl else {}
     if impl and xlines:
         impl_out.update(chk.run_cases(impl, xlines, timeout=900, jobs=len(xlines)))
@@ -446,7 +498,7 @@ def main(argv):
     model_out = {}
     dep_sets = {}
     if model:
-        model_out = chk.run_cases(model, lines + ["D%s%s D %s %s" % (hc, ho, hc, ho) for hc, ho in (("1", "1"), ("1", "0"), ("0", "0"))],
+        model_out = chk.run_cases(model, lines + klines + ["D%s%s D %s %s" % (hc, ho, hc, ho) for hc, ho in (("1", "1"), ("1", "0"), ("0", "0"))],
                                   timeout=900)
         for k in ("D11", "D10", "D00"):
             l = model_out.get(k, "")
@@ -458,7 +510,31 @@ def main(argv):
                 chk.cov["transitions"] = chk.cov.get("transitions", 0) + int(l.split("trans=")[1].split()[0])
     distinct = set()
     validated = 0
+    kids = set(x.split()[0] for x in klines)
     for cid, l in impl_out.items():
+        if cid in kids:
+            kline = [x for x in klines if x.split()[0] == cid][0]
+            rep = {"unit": True, "kline": kline, "line": kline, "cfg": ["k", "0", "0"], "impl_line": l}
+            parts = l.split(" | ")
+            if len(parts) != 3:
+                chk.violate("crash", "committer program crashed: " + l[:300], rep)
+                continue
+            mon = dict(x.split("=") for x in parts[2].split())
+            if mon.get("pubmove") != "1":
+                chk.violate("mon-publish-at-move", "a data was published by a move construction of its committer (program %s): %s"
+                            % (kline.split()[-1], parts[1]), rep)
+            if mon.get("late") != "1":
+                chk.violate("mon-write-after-publish", "a data's content was written after it had been published (program %s): %s"
+                            % (kline.split()[-1], parts[1]), rep)
+            ml = model_out.get(cid)
+            if ml:
+                validated += 1
+                mstr = " ".join(ml.split()[1:3])
+                if mstr != parts[1].strip():
+                    chk.broke("correspondence", "AFModel committer machine vs implementation on program " + kline.split()[-1],
+                              "impl:  %s\nmodel: %s" % (parts[1].strip(), mstr))
+            distinct.add(("k", kline.split()[-1].translate(str.maketrans("", "", "0123456789")), parts[1].count("-")))
+            continue
         if cid in umeta:
             name, hc, ho = umeta[cid]
             rep = {"unit": True, "cfg": [name, hc, ho], "line": [x for x in ulines if x.split()[0] == cid][0], "impl_line": l}
